@@ -162,11 +162,11 @@ def in_wide(spec):
     return not any(c["blocking"] and rate[c["out"]] > rate[c["inp"]] for c in spec["conns"])
 
 
-def rand_wide(seed, **kw):
+def rand_wide(seed, live_ok=False, **kw):
     s = seed * 1000
     while True:
         spec = rand_spec(s, **kw)
-        if in_wide(spec) and not in_live(spec):
+        if in_wide(spec) and (live_ok or not in_live(spec)):
             spec["seed"] = seed
             spec["gen_seed"] = s
             return spec
